@@ -1,3 +1,4 @@
 """theorem lists of the witness-graph properties"""
 C20 = {"ZkProofs.C20": ['Zk.C20_single_pass_is_reference_interpretation', 'Zk.C20_outputs_are_reference_interpretation', 'Zk.C20_wellformed_never_crashes', 'Zk.C20_input_order_irrelevant', 'Zk.C20_inputs_at_declared_offsets', 'Zk.C20_varint_roundtrip', 'Zk.C20_pushback_reader_in_order', 'Zk.C20_container_framing_roundtrip', 'Zk.C20_node_conversion_roundtrip', 'Zk.C20_inputs_size_stops_at_first_run', 'Zk.C20_unknown_input_name_panics']}
+C20["ZkProofs.C20Tables"] = ["Zk.C20_enum_numbering", "Zk.C20_opCode_inverse", "Zk.C20_operator_tables_identity"]
 C05 = {"ZkProofs.C05": ['Zk.C05_bundled_graph_wellformed', 'Zk.C05_evaluator_total_deterministic_order_independent']}
